@@ -52,6 +52,55 @@ Definition lines_eqb (a b:list line) : bool :=
   (length a =? length b) &&
   forallb (fun xy => (fst (fst xy) =? fst (snd xy))%N && bytes_eqb (snd (fst xy)) (snd (snd xy))) (combine a b).
 
+(* ---- C18: a data region with lone marker lines ---- *)
+Definition line_eqb (x y:line) : bool := (fst x =? fst y)%N && bytes_eqb (snd x) (snd y).
+(* a is a subsequence of b *)
+Fixpoint is_subseq (a b:list line) : bool :=
+  match b with
+  | [] => match a with [] => true | _ => false end
+  | y :: b' => match a with
+               | [] => true
+               | x :: a' => if line_eqb x y then is_subseq a' b' else is_subseq a b'
+               end
+  end.
+Fixpoint is_prefix (a b:list line) : bool :=
+  match a, b with
+  | [], _ => true
+  | x :: a', y :: b' => line_eqb x y && is_prefix a' b'
+  | _, [] => false
+  end.
+
+(* the decoder that drops everything between a lone marker line (a marker line whose successor is not one)
+   and the next complete section *)
+Inductive lstate :=
+| LN (full:option N) (skip:bool)
+| L1 (full:option N) (a:slot)
+| L2 (full:option N) (a b:slot) (got:list slot).
+Record lscan := { l_st : lstate; l_sure : list line (* reversed *); l_lone : nat; l_bad : bool;
+                  l_first : option nat   (* number of lines in l_sure when the first lone marker was met *) }.
+Definition lscan0 : lscan := {| l_st := LN None false; l_sure := []; l_lone := 0; l_bad := false; l_first := None |}.
+Definition lstep (p:nat) (s:lscan) (x:slot) : lscan :=
+  let set st := {| l_st := st; l_sure := l_sure s; l_lone := l_lone s; l_bad := l_bad s; l_first := l_first s |} in
+  match l_st s with
+  | LN full skip =>
+      if Layout.is_marker x then set (L1 full x)
+      else if skip then s
+      else match full with
+           | Some f => {| l_st := LN full false; l_sure := ((f + le_dec (firstn 2 x))%N, skipn 2 x) :: l_sure s;
+                          l_lone := l_lone s; l_bad := l_bad s; l_first := l_first s |}
+           | None => {| l_st := LN full false; l_sure := l_sure s; l_lone := l_lone s; l_bad := true; l_first := l_first s |}
+           end
+  | L1 full a =>
+      if Layout.is_marker x
+      then (if Layout.ncont p =? 0 then set (LN (Some (Layout.read_ts p a x [])) false) else set (L2 full a x []))
+      else {| l_st := LN full true; l_sure := l_sure s; l_lone := S (l_lone s); l_bad := l_bad s;
+              l_first := match l_first s with None => Some (length (l_sure s)) | o => o end |}
+  | L2 full a b got =>
+      let got' := got ++ [x] in
+      if length got' =? Layout.ncont p then set (LN (Some (Layout.read_ts p a b got')) false) else set (L2 full a b got')
+  end.
+Definition lenient (p:nat) (region:list byte) : lscan := fold_left (lstep p) (chunks (p + 2) region) lscan0.
+
 (* does `out` equal resample b sel for some b >= 1 (at most 2n samples)? candidates for b follow from
    the number of samples: |sel| / b = |out| *)
 Definition uniform_means (p:nat) (n:N) (sel out:list line) : bool :=
@@ -69,12 +118,16 @@ Record shandle := {
   sh_name : list byte; sh_p : nat; sh_hdr : list byte; sh_caches : list N; sh_cb : cbmode;
   sh_rlines : list line;       (* the accepted lines, newest first (appends are the common operation) *)
   sh_rregion : list byte;      (* the data region (file content after the header), last byte first *)
-  sh_full : option N           (* last full timestamp in the region *)
+  sh_full : option N;          (* last full timestamp in the region *)
+  sh_dmg : option (list line)  (* C18: Some sure = the data file has a lone marker line; sh_rlines are then the
+                                  lines that were appended before the damage was done, `sure` those of them a
+                                  reader that skips from a lone marker to the next intact section still sees *)
 }.
 Definition sh_lines (h:shandle) : list line := frev (sh_rlines h).
 Definition sh_region (h:shandle) : list byte := frev (sh_rregion h).
 Definition sfs := list (list byte * list byte).     (* expected content of every file *)
 Record sstate := { ss_fs : sfs; ss_h : option shandle;
+                   ss_orig : sfs;     (* C18: content of a file before single lines of it were overwritten (fs_patch) *)
                    ss_det : bool }.   (* false: the properties no longer determine the state (damage other than a torn tail) *)
 
 Fixpoint sfs_get (fs:sfs) (f:list byte) : option (list byte) :=
